@@ -411,21 +411,44 @@ func r165(c *Ctx) {
 				}
 			}
 			// source: same-named flag of ServiceForHost(host) when non-nil, else of defaultServiceOptions
-			srcOK := false
-			ch, base := fieldPath(w.val)
-			if len(ch) >= 1 && ch[len(ch)-1] == f {
-				if call, ok := base.(*ssa.Call); ok && isCallTo(call.Common(), sfh) {
-					if _, nn := nilKnowledge(w.instr, sameAs(call)); nn {
-						srcOK = true
+			// (either as two stores on the two branches, or as one store of a value merged from the two)
+			type src struct {
+				v  ssa.Value
+				at *ssa.BasicBlock // where the value was chosen
+			}
+			var srcs []src
+			if phi, ok := w.val.(*ssa.Phi); ok {
+				for i, e := range phi.Edges {
+					blk := phi.Block().Preds[i]
+					if in, ok := e.(ssa.Instruction); ok {
+						blk = in.Block()
+					}
+					srcs = append(srcs, src{e, blk})
+				}
+			} else {
+				srcs = []src{{w.val, w.instr.Block()}}
+			}
+			srcOK := len(srcs) > 0
+			for _, sv := range srcs {
+				one := false
+				ch, base := fieldPath(sv.v)
+				if len(ch) >= 1 && ch[len(ch)-1] == f {
+					if call, ok := base.(*ssa.Call); ok && isCallTo(call.Common(), sfh) && len(sv.at.Instrs) > 0 {
+						if _, nn := nilKnowledge(sv.at.Instrs[0], sameAs(call)); nn {
+							one = true
+						}
+					}
+					if base == ssa.Value(defOpts) {
+						one = true
 					}
 				}
-				if base == ssa.Value(defOpts) {
-					srcOK = true
+				if !one {
+					srcOK = false
 				}
 			}
 			c.ob(rule, "sync/"+name+"-only-for-non-root-from-root-or-default", w.instr.Pos(), notRoot && srcOK, true, "a sub-path service takes "+name+" from the root-path service of its host (ServiceForHost) or, if there is none, from the TLS-off default; root-path services are never overwritten")
 		}
-		c.ob(rule, "sync/writes-"+name, sync.Pos(), n == 2, false, "")
+		c.ob(rule, "sync/writes-"+name, sync.Pos(), n >= 1, false, "")
 	}
 	// the default is TLS off
 	okDef := true
